@@ -100,7 +100,7 @@ func init() {
 	gens["C05"] = []genFunc{forProp("C05", pe.Gen), filtered(c09.Gen, "cksum", "fixpe", "fixpehex", "merkle"), filtered(c19.Gen, "ecdsa", "ecdsasign")}
 	for _, p := range []string{"C01", "C02", "C03", "C08", "C11"} {
 		gens[p] = append(gens[p], forProp(p, pe.Gen))
-		if p == "C01" || p == "C03" || p == "C08" {
+		if p == "C01" || p == "C02" || p == "C03" || p == "C08" {
 			gens[p] = append(gens[p], forProp(p, e2e.Gen))
 		}
 	}
